@@ -278,5 +278,154 @@ def _shape(node):
     return ','.join(names[:4])
 
 
+
+
+# ---------------------------------------------------------------- SB: sibling agreement of the four families
+
+from .lie_common import normalised_return, FAM_RE, ALG_RE      # noqa: E402
+from .. import layout as L                                      # noqa: E402
+
+
+def _famnorm(s):
+    s = FAM_RE.sub('G_', s)
+    return ALG_RE.sub('g_', s)
+
+
+def rule_sb(repo, tier):
+    res = RuleResult('C04.SB', 'the four family siblings of each op return structurally equal backward / setup_context expression '
+                     'trees after family normalisation (SO3|SE3|RxSO3|Sim3 -> G, so3|.. -> g); AdjTXa is compared within the '
+                     'orthogonal pair (SO3, RxSO3) and within the non-orthogonal pair (SE3, Sim3)', floor=16)
+    for op in OPS8:
+        for meth in ('backward', 'setup_context'):
+            forms = {}
+            for fam in FAMS:
+                f = repo.func(OP, op_class(fam, op) + '.' + meth)
+                if meth == 'backward':
+                    n = normalised_return(f, _famnorm)
+                else:
+                    n = _saved_norm(repo, op_class(fam, op))
+                if n is None:
+                    raise AnalysisError('C04.SB: %s.%s lost its single return / save_for_backward' % (op_class(fam, op), meth))
+                forms[fam] = (n, f)
+            groups = [FAMS] if op != 'AdjTXa' else [['SO3', 'RxSO3'], ['SE3', 'Sim3']]
+            for grp in groups:
+                vals = {}
+                for fam in grp:
+                    vals.setdefault(forms[fam][0], []).append(fam)
+                res.inst({'op': op, 'method': meth, 'families': grp, 'distinct_forms': len(vals)}, (op, meth, tuple(grp)))
+                if len(vals) > 1:
+                    # the minority form is the suspect
+                    minority = sorted(vals.values(), key=len)[0]
+                    for fam in minority:
+                        f = forms[fam][1]
+                        res.add(Finding('C04.SB', f, '%s.%s differs structurally from its siblings %s (after family normalisation): a sign, '
+                                        'helper or operand role was changed in one family only' % (op_class(fam, op), meth,
+                                                                                              [x for x in grp if x != fam]),
+                                        construct='%s.%s vs siblings' % (op, meth)))
+    return res
+
+
+def _saved_norm(repo, cname):
+    kinds, exprs = saved_kinds(repo, cname)
+    return '|'.join(_famnorm(dump(e)) for e in exprs)
+
+
+# ---------------------------------------------------------------- LT: arity / shape conventions of gradients
+
+OPSIG = {'Log': (['G'], 'g'), 'Exp': (['g'], 'G'), 'Act': (['G', 3], 3), 'Act4': (['G', 4], 4), 'AdjXa': (['G', 'g'], 'g'),
+         'AdjTXa': (['G', 'g'], 'g'), 'Mul': (['G', 'G'], 'G'), 'Inv': (['G'], 'G')}
+
+
+class _SavedSubst(ast.NodeTransformer):
+    def visit_Call(self, n):
+        self.generic_visit(n)
+        if dotted(n.func) == '$item' and dotted(n.args[0]) in ('ctx.saved_tensors', 'inputs') and isinstance(n.args[1], ast.Constant):
+            return ast.Name('$%s%d' % ('saved' if dotted(n.args[0]) == 'ctx.saved_tensors' else 'in', n.args[1].value), ast.Load())
+        # torch.zeros(<shape> + (k,), ...) : a block of k zeros in the last dimension
+        if dotted(n.func) == 'torch.zeros' and n.args and isinstance(n.args[0], ast.BinOp) and isinstance(n.args[0].op, ast.Add) \
+                and isinstance(n.args[0].right, ast.Tuple) and len(n.args[0].right.elts) == 1 and isinstance(n.args[0].right.elts[0], ast.Constant):
+            return ast.Call(ast.Name('$zeros', ast.Load()), [n.args[0].right.elts[0]], [])
+        return n
+
+
+class _BTyper(L.Typer):
+    def call(self, e):
+        if dotted(e.func) == '$zeros':
+            return L.Vec([('z', e.args[0].value)])
+        return super().call(e)
+
+
+def rule_lt(repo, tier):
+    res = RuleResult('C04.LT', 'backward returns one gradient per forward input; a gradient for a group input is (manifold-dim part, one '
+                     'zero), for an algebra / point input the full dimension; grad_output[..., :-1] is used exactly when the op output '
+                     'is a group element (typed matrix products); saved tensors are used with the layout setup_context saved', floor=32)
+    table = L.extract_table(repo)
+    sigs = L.signatures(table)
+    for fam in FAMS:
+        for op in OPS8:
+            cname = op_class(fam, op)
+            ins, outk = OPSIG[op]
+            def lay(k):
+                if k == 'G':
+                    return L.Vec(L.atoms_of(table, fam))
+                if k == 'g':
+                    return L.Vec(L.atoms_of(table, ALG[fam]))
+                return L.Vec([('g', 3)] if k == 3 else [('g', 3), ('g', 1)])
+            in_l = [lay(k) for k in ins]
+            out_l = lay(outk)
+            fwd = repo.func(OP, cname + '.forward')
+            if len(fwd.pos_params) != len(ins):
+                raise AnalysisError('C04.LT: %s.forward takes %s' % (cname, fwd.pos_params))
+            _, saved_exprs = saved_kinds(repo, cname)
+            env = {'output': out_l}
+            for i, l in enumerate(in_l):
+                env['$in%d' % i] = l
+            sty = _BTyper(table, sigs, env)
+            benv = {}
+            for i, e in enumerate(saved_exprs):
+                benv['$saved%d' % i] = sty.t(_SavedSubst().visit(copy.deepcopy(e)))
+            f = repo.func(OP, cname + '.backward')
+            gname = f.pos_params[1]
+            benv[gname] = L.Vec([('g', out_l.size)])
+            rets = returns_of(f.node)
+            val = inline_straight(f.node, upto=rets[0]).value(rets[0].value)
+            val = _SavedSubst().visit(copy.deepcopy(val))
+            ty = _BTyper(table, sigs, benv)
+            comps = val.elts if isinstance(val, ast.Tuple) else [val]
+            types = [ty.t(c) for c in comps]
+            res.inst({'function': f.fq, 'inputs': ins, 'gradients': [repr(t) for t in types], 'saved': [repr(v) for v in benv.values()][:-1]}, f.fq)
+            res.unresolved += ty.unknown
+            if len(comps) != len(ins):
+                res.add(Finding('C04.LT', f, '%s.backward returns %d gradients for %d forward inputs' % (cname, len(comps), len(ins)),
+                                construct='arity'))
+                continue
+            seen = set()
+            for node, msg in ty.problems + sty.problems:
+                if msg not in seen:
+                    seen.add(msg)
+                    res.add(Finding('C04.LT', f, msg, construct=re.sub(r'\s+', ' ', msg)[:160]))
+            for i, (k, t) in enumerate(zip(ins, types)):
+                if not isinstance(t, L.Vec) or t.form != 'vec':
+                    if t is not None:
+                        res.add(Finding('C04.LT', f, 'gradient #%d of %s is %s, not a vector' % (i, cname, t), construct='grad #%d form' % i))
+                    else:
+                        res.unresolved += 1
+                    continue
+                want = in_l[i].size
+                zero_tail = bool(t.atoms) and t.atoms[-1] == ('z', 1)
+                if t.size != want:
+                    res.add(Finding('C04.LT', f, 'gradient #%d of %s has %d entries (%s); the input has %d' % (i, cname, t.size, t, want),
+                                    construct='grad #%d size' % i))
+                elif k == 'G' and not zero_tail:
+                    res.add(Finding('C04.LT', f, 'gradient #%d of %s (group input) must end with the structural zero slot; got %s' % (i, cname, t),
+                                    construct='grad #%d zero slot' % i))
+                elif k != 'G' and any(a[0] == 'z' for a in t.atoms):
+                    res.add(Finding('C04.LT', f, 'gradient #%d of %s (algebra / point input) carries a structural zero slot: %s' % (i, cname, t),
+                                    construct='grad #%d zero slot' % i))
+    if res.unresolved > 12:
+        raise AnalysisError('C04.LT: %d expressions could not be typed (ceiling 12)' % res.unresolved)
+    return res
+
+
 def rules(repo, tier):
-    return [rule_vt(repo, tier)]
+    return [rule_vt(repo, tier), rule_sb(repo, tier), rule_lt(repo, tier)]
